@@ -2217,6 +2217,9 @@ class _Simu(_IObserver, _params.Updatable, ABC):
 
     def Bc_Init(self) -> None:
         """Initializes Dirichlet, Neumann and Lagrange boundary conditions"""
+        if len(getattr(self, "_Simu__Bc_Lagrange", [])) > 0:
+            # the assembled matrix system was sized for the Lagrange multipliers
+            self.Need_Update()
         # DIRICHLET
         self.__Bc_Dirichlet: list[BoundaryCondition] = []
         """Dirichlet conditions list[BoundaryCondition]"""
